@@ -391,12 +391,14 @@ fn run_mem_session(p: &Prog, lines: &[String], res: &mut Res) {
                                 if truth != bytes { res.fail("read-returns-wrong-bytes", format!("read_memory(window+{off}, {n}) = {} but /proc/pid/mem holds {}", hex(&bytes), hex(&truth)), rp); }
                             }
                             res.count(if n == 0 { "read.ok.empty" } else if (off % 8) + n > 8 { "read.ok.multiword" } else { "read.ok.oneword" });
+                            if n % 8 != 0 && !lv.all_mapped(off, span) { res.count(if n < 8 { "read.ok.tail_of_mapping.short" } else { "read.ok.tail_of_mapping.long" }); }
                             format!("ok {}", hex(&bytes))
                         }
                         Ok(Err(e)) => {
                             if mapped {
+                                // (repaired by 37b4832: the key stays, a regression is a VIOLATION)
                                 if !lv.all_mapped(off, span) {
-                                    res.fail("read-tail-of-mapping-eio", format!("read_memory(window+{off}, {n}): [a,a+n) is mapped and ends {} byte(s) before the end of its mapping, the read fails ({e}) because the last word peek runs past the mapping", off + span - (off + n)), rp);
+                                    res.fail("read-tail-of-mapping-eio", format!("read_memory(window+{off}, {n}): [a,a+n) is mapped and ends {} byte(s) before the end of its mapping, the read fails ({e}): the last word peek runs past the mapping", off + span - (off + n)), rp);
                                 } else { res.fail("read-of-mapped-range-fails", format!("read_memory(window+{off}, {n}) failed ({e}) although the whole word span is mapped"), rp); }
                             }
                             res.count(if mapped { "read.err.mapped_range" } else { "read.err.unmapped" });
